@@ -464,14 +464,18 @@ class ContractionProcessor:
     def simplify_batch(self):
         """Find any indices that appear in all terms and remove them, since
         they simply add an constant factor to the cost of the contraction, but
-        create a fully connected graph if left.
+        create a fully connected graph if left. That factor, the product of
+        the sizes of the removed indices, is returned.
         """
         ix_to_remove = []
         for ix, ix_nodes in self.edges.items():
             if len(ix_nodes) >= len(self.nodes):
                 ix_to_remove.append(ix)
+        factor = 1
         for ix in ix_to_remove:
             self.remove_ix(ix)
+            factor *= self.sizes[ix]
+        return factor
 
     def simplify_single_terms(self):
         """Take any diags, reductions and traces of single terms."""
@@ -528,7 +532,11 @@ class ContractionProcessor:
                 group.append(self.contract_nodes(i, j))
 
     def simplify(self):
-        self.simplify_batch()
+        """Perform all simplifications. Returns the constant factor by which
+        the indices dropped by ``simplify_batch`` multiply the cost of every
+        remaining contraction.
+        """
+        batch_factor = self.simplify_batch()
         should_run = True
         while should_run:
             self.simplify_single_terms()
@@ -537,6 +545,7 @@ class ContractionProcessor:
             self.simplify_hadamard()
             # only rerun if we did hadamard deduplication
             should_run = ssa_before != self.ssa
+        return batch_factor
 
     def subgraphs(self):
         remaining = set(self.nodes)
@@ -1103,8 +1112,12 @@ def optimize_random_greedy_track_flops(
 
     # create initial processor and simplify only once
     cp0 = ContractionProcessor(inputs, output, size_dict, track_flops=True)
+    # indices that appear on every term are dropped by ``simplify`` and so
+    # are invisible to the flops tracking, but each contraction of the
+    # returned path still runs over them -> put their sizes back at the end
+    batch_factor = 1
     if simplify:
-        cp0.simplify()
+        batch_factor = cp0.simplify()
 
     if isinstance(costmod, float):
         # constant
@@ -1154,7 +1167,7 @@ def optimize_random_greedy_track_flops(
 
     # for consistency with cotengrust / easier comparison
     # n.b. a single term needs no contraction at all -> zero flops
-    best_flops = math.log10(max(best_flops, 1))
+    best_flops = math.log10(max(best_flops * batch_factor, 1))
 
     if not use_ssa:
         best_path = ssa_to_linear(best_path, len(inputs))
